@@ -250,7 +250,10 @@ fn check_c11(
     let mut v = Vec::new();
     // which ops write the repository?
     let wrote = matches!(op, Op::RrdpUpdate | Op::SessionReset) && out.ok;
-    let staged_before = r.pubs != r.at_last_update;
+    // (objects, not publishers: removing a publisher that has nothing
+    // published stages nothing)
+    let flat = |m: &BTreeMap<String, PubMap>| -> PubMap { m.values().flat_map(|x| x.iter().map(|(k, v)| (k.clone(), v.clone()))).collect() };
+    let staged_before = flat(&r.pubs) != flat(&r.at_last_update);
     let notif_bytes = match std::fs::read(rrdp_dir().join("notification.xml")) {
         Ok(b) => b,
         Err(e) => return vec![("notification".into(), format!("cannot read: {e}"))],
